@@ -538,10 +538,41 @@ func runC15(rc *RC) {
 			}
 			injs = append(injs, inj{"linebreak-base64", sid, strconv.Itoa(nextSeq % 65536), wrapped.String(), "result-or-bad-request"})
 		}
+		if !ack && tailA == 0 && !reverse && len(payload)%3 == 0 {
+			// message carrier: a data packet in sequence that shares its message with other payloads (delivery hints, AMP
+			// rules: XEP-0047 shows such messages), in front of and behind <data/>. It is a packet like any other.
+			injs = append(injs, inj{"message-with-siblings", sid, strconv.Itoa(nextSeq % 65536), base64.StdEncoding.EncodeToString([]byte("sibling payloads")), ""})
+		}
 		in := injs[ch.Int("workload", len(injs))]
+		if injs[len(injs)-1].name == "message-with-siblings" && ch.Chance("workload", 1, 2) {
+			in = injs[len(injs)-1]
+		}
 		if in.name == "linebreak-base64" {
 			in.want = "" // decided below
 		}
+		viaMessage := false
+		if in.name == "message-with-siblings" {
+			before, after := []string{"", `<no-store xmlns="urn:xmpp:hints"/>`, `<body>x</body><no-copy xmlns="urn:xmpp:hints"/>`}[ch.Int("workload", 3)], []string{"", `<amp xmlns="http://jabber.org/protocol/amp"><rule action="error" condition="match-resource" value="exact"/></amp>`, `<store xmlns="urn:xmpp:hints"/>`}[ch.Int("workload", 3)]
+			var serr error
+			it := rc.Spawn("injector-msg", func() {
+				ictx, c2 := context.WithTimeout(ctx, 20*time.Second)
+				defer c2()
+				serr = p.A.Send(ictx, xml.NewDecoder(strings.NewReader(fmt.Sprintf(`<message xmlns="jabber:client" to="%s" id="injm">%s<data xmlns="%s" sid="%s" seq="%s">%s</data>%s</message>`, bJID, before, ibb.NS, escText(in.sid), in.seq, in.data, after))))
+			})
+			rc.S.Run(func() bool { return it.Done() }, 200000, time.Minute)
+			rc.Fire("inject-" + in.name)
+			payload = append(append([]byte(nil), payload...), []byte("sibling payloads")...)
+			must1 = len(payload)
+			rc.S.Run(func() bool { return len(rdB.got) >= len(payload) || p.DoneB }, 200000, 10*time.Second)
+			rc.Evals["C15.c2"]++
+			if serr == nil && !bytes.Equal(rdB.got, payload) {
+				rc.Failf("C15.c2", "bytes-differ:message-with-siblings", "a data packet in sequence, carried by a message that has other payloads too (before: %q, after: %q), was sent to the stream; the reader has %d bytes, want %d (the packet's %d bytes at the end); acceptor's session served: %v", before, after, len(rdB.got), len(payload), len("sibling payloads"), !p.DoneB)
+				rc.Describe("a wrote last: %s", tail(p.CA.Out().Tap, 500))
+				rc.Describe("b wrote last: %s", tail(p.CB.Out().Tap, 300))
+			}
+			viaMessage = true
+		}
+		if !viaMessage {
 		if in.name == "empty-then-replay" {
 			first := rc.Spawn("injector-empty", func() {
 				ictx, c2 := context.WithTimeout(ctx, 20*time.Second)
@@ -604,6 +635,7 @@ func runC15(rc *RC) {
 		}
 		if !it.Done() || ierr != nil || cond != in.want {
 			rc.Failf("C15.c4", "bad-packet-not-refused:"+in.name, "injected %s packet: want stanza error %s, got %q (err %v, returned %v)", in.name, in.want, cond, ierr, it.Done())
+		}
 		}
 		// … and never disturbs data already delivered
 		rc.S.Run(nil, 2000, time.Second)
